@@ -1,6 +1,8 @@
 package main
 
 import (
+	"go/token"
+	"strings"
 	"go/constant"
 	"go/types"
 
@@ -142,4 +144,102 @@ func messageSites(p *Prog, fns []*ssa.Function) (sites []msgSite, nonConst []*ss
 		}
 	}
 	return
+}
+
+// An offset appender is an in-module function that completes a message with a position:
+//   func (s *T) errorAt(problem string) error { return errors.New(problem + " at offset " + strconv.Itoa(s.offset())) }
+// i.e. a string concatenation in which a constant that ends in "offset " is directly followed by the
+// decimal rendering of an integer. Prefix is the parameter that carries the caller's part of the text.
+type offsetAppender struct {
+	Fn     *ssa.Function
+	Prefix int       // index of the string parameter the text starts with, -1 if none
+	Off    ssa.Value // the integer that is rendered
+	At     *ssa.Call // the rendering call (strconv.Itoa / fmt.Sprint)
+}
+
+func offsetAppenders(p *Prog) []*offsetAppender {
+	var out []*offsetAppender
+	for _, pk := range p.Pkgs {
+		for _, f := range p.AllModuleFuncs(pk) {
+			if p.isTestPos(f.Pos()) {
+				continue
+			}
+			for _, b := range f.Blocks {
+				for _, in := range b.Instrs {
+					bo, ok := in.(*ssa.BinOp)
+					if !ok || bo.Op != token.ADD || !isStringType(bo.Type()) {
+						continue
+					}
+					// bo = (… + CONST) + render(V)
+					rc, ok := bo.Y.(*ssa.Call)
+					if !ok || rc.Call.StaticCallee() == nil || len(rc.Call.Args) != 1 {
+						continue
+					}
+					switch rc.Call.StaticCallee().String() {
+					case "strconv.Itoa":
+					default:
+						continue
+					}
+					left, ok := bo.X.(*ssa.BinOp)
+					var k string
+					if ok && left.Op == token.ADD {
+						k, _ = constStringOf(left.Y)
+					} else {
+						k, _ = constStringOf(bo.X)
+					}
+					if !strings.HasSuffix(k, "offset ") {
+						continue
+					}
+					app := &offsetAppender{Fn: f, Prefix: -1, Off: rc.Call.Args[0], At: rc}
+					if left != nil {
+						// the leftmost leaf of the concatenation
+						leaf := left.X
+						for {
+							l2, ok := leaf.(*ssa.BinOp)
+							if !ok || l2.Op != token.ADD {
+								break
+							}
+							leaf = l2.X
+						}
+						for i, prm := range f.Params {
+							if leaf == ssa.Value(prm) {
+								app.Prefix = i
+							}
+						}
+					}
+					out = append(out, app)
+				}
+			}
+		}
+	}
+	return out
+}
+
+// lexemeOperand: the value quoted by '…' in a message prefix built at a call site: the %s operand of a
+// constant Sprintf format containing '%s', or X in "…'" + X + "'…".
+func lexemeOperand(v ssa.Value) ssa.Value {
+	switch t := v.(type) {
+	case *ssa.Call:
+		if c := t.Call.StaticCallee(); c != nil && (c.String() == "fmt.Sprintf") && len(t.Call.Args) == 2 {
+			if f, ok := constStringOf(t.Call.Args[0]); ok {
+				ops := variadicOperands(t.Call.Args[1])
+				if i := verbIndex(f, "'%s'"); i >= 0 && i < len(ops) {
+					return ops[i]
+				}
+			}
+		}
+	case *ssa.BinOp:
+		if t.Op != token.ADD {
+			return nil
+		}
+		// (A + X) + B with A ending in ' and B starting with '
+		if l, ok := t.X.(*ssa.BinOp); ok && l.Op == token.ADD {
+			a, okA := constStringOf(l.X)
+			b, okB := constStringOf(t.Y)
+			if okA && okB && strings.HasSuffix(a, "'") && strings.HasPrefix(b, "'") {
+				return l.Y
+			}
+		}
+	}
+	return nil
 }
